@@ -17,6 +17,15 @@ func (e *Env) Define(symbol string, value interface{}) error {
 	return e.DefineValue(symbol, reflect.ValueOf(value))
 }
 
+// ownNilCell gives a binding of NilValue a cell of its own: NilValue is one addressable cell for the whole process,
+// and a store through a pointer to a symbol bound to it would change nil everywhere.
+func ownNilCell(value reflect.Value) reflect.Value {
+	if value.CanAddr() && value.Type() == NilValue.Type() && value.Addr().Pointer() == NilValue.Addr().Pointer() {
+		return reflect.New(NilValue.Type()).Elem()
+	}
+	return value
+}
+
 // DefineValue defines/sets reflect value to symbol in current scope.
 func (e *Env) DefineValue(symbol string, value reflect.Value) error {
 	if strings.Contains(symbol, ".") {
@@ -25,6 +34,7 @@ func (e *Env) DefineValue(symbol string, value reflect.Value) error {
 	if !value.IsValid() || !value.CanInterface() {
 		return ErrInvalidValue
 	}
+	value = ownNilCell(value)
 	e.rwMutex.Lock()
 	if e.values == nil {
 		e.values = make(map[string]reflect.Value)
@@ -67,6 +77,7 @@ func (e *Env) SetValue(symbol string, value reflect.Value) error {
 	if !value.IsValid() || !value.CanInterface() {
 		return ErrInvalidValue
 	}
+	value = ownNilCell(value)
 	e.rwMutex.Lock()
 	if _, ok := e.values[symbol]; ok {
 		e.values[symbol] = value
